@@ -41,6 +41,75 @@ inductive Prescribed (fl : Flags) (idx : Option Bool) (vs : List RV) (r : RV) : 
   | fallback : ¬(fl.dev = true ∧ DevAvail vs) → ¬CurOk fl idx vs → ¬(fl.usePre = true ∧ AnySel fl idx vs) →
       ¬AnyStableSel fl idx vs → Newest (fun _ => True) vs r → Prescribed fl idx vs r
 
+/-! ### The current release as a matter of the history of calls
+
+"The current release" of a resource is the version most recently *announced* as such (the last
+`AddResource` / `AddResources` / `AddVersion` call with `currentRelease = true` for that resource). The definitions
+below read it off the history of calls and never look at the `CurrentRelease` flags of the entries;
+`PB.C19.history_current_release` proves that in every reachable state the flags say exactly this, and
+`PB.C19.history_select_prescribed` states the documented order against it. -/
+
+/-- the version the last item for `id` of an `AddResources` map names (`c` if `id` is not in the map) -/
+def announcedIn (id : Str) (c : Option Ver) : List (Str × Str) → Option Ver
+  | [] => c
+  | it :: rest => announcedIn id (if it.1 == id then parseVer it.2 else c) rest
+
+/-- What one API call, issued in state `s`, does to the current release `c` of resource `id`:
+    a call with `currentRelease = true` for `id` announces its version (an announcement whose version does not parse
+    leaves the resource without current release; `AddVersion` on an unknown resource does nothing); a `Purge` that
+    drops the version from the list of the resource makes the resource forget it; no other call matters. -/
+def announceStep (id : Str) (s : St) (c : Option Ver) : Op → Option Ver
+  | .add id' ver _ true _ _ => if id' == id then parseVer ver else c
+  | .addMany items _ true _ _ => announcedIn id c items
+  | .addVersion id' ver _ true _ => if id' == id && (s.get id).isSome then parseVer ver else c
+  | .purge keep =>
+    match c with
+    | some v => if (((s.get id).getD {}).purge keep).versions.any (fun rv => rv.ver == v) then some v else none
+    | none => none
+  | _ => c
+
+/-- the registry state and the current release of `id` after the calls `ops`, starting from `(s, c)` -/
+def runCur (id : Str) (s : St) (c : Option Ver) : List Op → St × Option Ver
+  | [] => (s, c)
+  | o :: ops => runCur id (step s o).1 (announceStep id s c o) ops
+
+/-- The current release of resource `id` after the history `ops` on a fresh registry. -/
+def currentRelease (id : Str) (ops : List Op) : Option Ver := (runCur id {} none ops).2
+
+/-- One call read off its arguments alone (no registry state): `known` = the resource `id` has been created by an earlier
+    `AddResource(s)` call (`AddVersion` needs an existing resource), `c` = the version announced last. -/
+def announcedArgs (id : Str) (known : Bool) (c : Option Ver) : Op → Bool × Option Ver
+  | .add id' ver _ cur _ _ => (known || id' == id, if cur && id' == id then parseVer ver else c)
+  | .addMany items _ cur _ _ => (known || items.any (fun it => it.1 == id), if cur then announcedIn id c items else c)
+  | .addVersion id' ver _ cur _ => (known, if cur && id' == id && known then parseVer ver else c)
+  | _ => (known, c)
+
+def lastAnnouncedFrom (id : Str) (known : Bool) (c : Option Ver) : List Op → Option Ver
+  | [] => c
+  | o :: ops => lastAnnouncedFrom id (announcedArgs id known c o).1 (announcedArgs id known c o).2 ops
+
+/-- The version most recently announced as the current release of `id` in the history `ops`
+    (`PB.C19.current_release_last_announced`: the current release is this version, unless a purge dropped it). -/
+def lastAnnounced (id : Str) (ops : List Op) : Option Ver := lastAnnouncedFrom id false none ops
+
+/-- the current release given by the history is listed and selectable -/
+def CurOkH (cur : Option Ver) (fl : Flags) (idx : Option Bool) (vs : List RV) : Prop :=
+  ∃ c ∈ vs, cur = some c.ver ∧ Sel fl idx c
+
+/-- The documented order with the current release `cur` taken from the history of announcements instead of the
+    `CurrentRelease` flags: the locally available dev version in dev mode, else the current release if selectable, else
+    (with pre-releases enabled) the newest selectable version, else the newest selectable stable version, else the newest. -/
+inductive PrescribedH (cur : Option Ver) (fl : Flags) (idx : Option Bool) (vs : List RV) (r : RV) : Prop
+  | dev : fl.dev = true → r ∈ vs → r.ver = devVer → r.avail = true → PrescribedH cur fl idx vs r
+  | current : ¬(fl.dev = true ∧ DevAvail vs) →
+      r ∈ vs → cur = some r.ver → Sel fl idx r → PrescribedH cur fl idx vs r
+  | newestSelectable : ¬(fl.dev = true ∧ DevAvail vs) → ¬CurOkH cur fl idx vs → fl.usePre = true →
+      Newest (Sel fl idx) vs r → PrescribedH cur fl idx vs r
+  | newestStable : ¬(fl.dev = true ∧ DevAvail vs) → ¬CurOkH cur fl idx vs → ¬(fl.usePre = true ∧ AnySel fl idx vs) →
+      Newest (fun rv => rv.pre = false ∧ Sel fl idx rv) vs r → PrescribedH cur fl idx vs r
+  | fallback : ¬(fl.dev = true ∧ DevAvail vs) → ¬CurOkH cur fl idx vs → ¬(fl.usePre = true ∧ AnySel fl idx vs) →
+      ¬AnyStableSel fl idx vs → Newest (fun _ => True) vs r → PrescribedH cur fl idx vs r
+
 /-- the last-resort step of the order -/
 def LastResort (fl : Flags) (idx : Option Bool) (vs : List RV) : Prop :=
   ¬CurOk fl idx vs ∧ ¬(fl.usePre = true ∧ AnySel fl idx vs) ∧ ¬AnyStableSel fl idx vs
